@@ -212,33 +212,71 @@ def fields(rep, prog):
 
 
 def handlers(rep, prog, classes):
+    """every declarative element kind is handed to the factory with the symbol class of that kind; directions map to the schemdraw method
+    of the same name -- read off the VALUES of the table entries (lambdas, named functions, partials, callable objects alike)"""
+    from ..terms import Evaluator, Poly, Ref, Rec, Closure, paths_of, tkey as _tkey
+    from ..api import A
     hm = prog.mod(SCH)
     tab = prog.table(SCH, 'element_handlers')
     if len(tab) < 12: rep.error(f'element_handlers has {len(tab)} entries (16 confirmed)')
+    ns = prog.module_namespace(hm)
+    values = ns.get('element_handlers')
     for key, kn, vn in tab:
         site = prog.site(hm, vn)
-        calls = [n for n in ast.walk(vn) if isinstance(n, ast.Call) and ast.unparse(n.func) == 'element_factory']
-        cnames = [ast.unparse(c.args[0]).split('.')[-1] for c in calls if c.args]
-        if not cnames:
-            rep.ob('R15.handlers', key, None, 'handler does not call element_factory', site); continue
+        ev = Evaluator(prog); ev.opaque_fns.add((SCH, 'element_factory'))
+        hv = None
+        if isinstance(values, dict): hv = values.get(key)
+        if hv is None and isinstance(vn, ast.Lambda): hv = Closure(vn, {'__parent__': None}, hm, 'λ')
+        if hv is None:
+            r = prog.resolve_expr(hm, vn)
+            hv = ev.ref_of(r) if r else None
+        if hv is None:
+            rep.ob('R15.handlers', key, None, 'handler value not followed', site); continue
+        t = ev.apply(hv, [A('kwargs')], {}, hm, 1)
+        cnames = []
+        for _, leaf in paths_of(t):
+            at = leaf.as_atom() if isinstance(leaf, Poly) else None
+            if isinstance(at, tuple) and at[:2] == ('call', ('fn', 'element_factory')) and at[2]:
+                c0 = at[2][0]
+                cnames.append(c0[3] if isinstance(c0, tuple) and c0[:2] == ('ref', 'class') else repr(c0)[:40])
+            elif isinstance(leaf, Rec):
+                cnames.append(leaf.cls)         # the factory was followed: the handler constructs this symbol class
+            else:
+                cnames.append(None)
+        if not cnames or any(c is None for c in cnames):
+            rep.ob('R15.handlers', key, None, f'handler does not end in element_factory(<symbol class>, ...): {t!r:.100}', site); continue
         typs = {classes.get(c, (None, None))[1] for c in cnames}
         alias = {'line': {'line', 'labeled_line'}, 'node': {'node'}, 'lamp': {None, 'lamp'}}
         ok = typs <= alias.get(key, {key})
         rep.ob('R15.handlers', key, ok, f"-> {cnames} (type {sorted(map(str, typs))})", site)
     f = hm.defs.get('apply_direction_and_length')
     if isinstance(f, ast.FunctionDef):
-        pairs = []
-        for st in ast.walk(f):
-            if isinstance(st, ast.If) and isinstance(st.test, ast.Compare) and isinstance(st.test.comparators[0], ast.Constant):
-                lit = st.test.comparators[0].value
-                meth = [ast.unparse(c.func).split('.')[-1] for c in ast.walk(st.body[0]) if isinstance(c, ast.Call)]
-                pairs.append((lit, meth[0] if meth else None))
-        for lit, meth in pairs:
-            rep.ob('R15.handlers', f'direction:{lit}', lit == meth, f"'{lit}' -> .{meth}()", prog.site(hm, f))
-        if len(pairs) < 4: rep.ob('R15.handlers', 'direction:count', None, f'only {len(pairs)} direction literals found', prog.site(hm, f))
+        n = 0
+        for lit in ('right', 'left', 'up', 'down'):
+            ev = Evaluator(prog)
+            ev.call_fn(f, hm, [A('element'), lit, A('length'), A('unit')], {}, {'__parent__': None}, 1)
+            calls = [(m_, a_) for recv, m_, a_, k_, pc_ in ev.atom_calls if recv == 'element' and m_ in ('right', 'left', 'up', 'down')]
+            want = _tkey(A('length') * A('unit'))
+            ok = len(calls) == 1 and calls[0][0] == lit and len(calls[0][1]) == 1 and _tkey(calls[0][1][0]) == want
+            n += 1
+            rep.ob('R15.handlers', f'direction:{lit}', True if ok else (None if not calls else False), f"'{lit}' -> {[('.' + m_ + '()') for m_, _ in calls]}", prog.site(hm, f))
     g = hm.defs.get('apply_position')
-    okp = isinstance(g, ast.FunctionDef) and 'element.at(origin_element.end)' in ast.unparse(g)
+    okp = None
+    if isinstance(g, ast.FunctionDef):
+        ev = Evaluator(prog)
+        t = ev.call_fn(g, hm, [A('element'), A('origin')], {}, {'__parent__': None}, 1)
+        leaves = [l for pc, l in paths_of(t) if not any(v for _, v in pc)] or [l for _, l in paths_of(t)]
+        want = Poly.atom(('call', ('.', 'element', 'at'), (_tkey(ev.getattr(A('origin'), 'end', hm, 0)),), ()))
+        okp = any(_tkey(l) == _tkey(want) for _, l in paths_of(t))
+        if not okp and any('?' in repr(_tkey(l)) for _, l in paths_of(t)): okp = None
     rep.ob('R15.handlers', 'place_after', okp, 'positioned at the end terminal of the referenced element', prog.site(hm, g) if g is not None else '')
     h = hm.defs.get('element_factory')
-    okf = isinstance(h, ast.FunctionDef) and 'element(name=name, reverse=reverse, **kwargs)' in ast.unparse(h)
+    okf = None
+    if isinstance(h, ast.FunctionDef):
+        ev = Evaluator(prog)
+        t = ev.call_fn(h, hm, [A('cls'), A('name'), A('reverse')], {'extra': A('extra')}, {'__parent__': None}, 1)
+        at = t.as_atom() if isinstance(t, Poly) else None
+        if isinstance(at, tuple) and at[:2] == ('call', 'cls'):
+            kw = dict(at[3])
+            okf = kw.get('name') == _tkey(A('name')) and kw.get('reverse') == _tkey(A('reverse')) and kw.get('extra') == _tkey(A('extra')) and not at[2]
     rep.ob('R15.handlers', 'factory', okf, 'factory forwards name, reverse and all values', prog.site(hm, h) if h is not None else '')
